@@ -124,10 +124,11 @@ Proof.
       pose proof (find_child K V p pi cs sep ch0 (tr s) Hnd Hfp (nth_error_In _ _ Hg)) as Hf2.
       rewrite Hn in Hf2. congruence. }
     subst ch0.
-    match type of HE with bind ?e _ = _ => destruct e as [sep'|] eqn:Hsep; [cbn [bind] in HE|discriminate HE] end.
+    (* new model: the new first separator is computed from [sep] and the key only (no [ismallest child]) *)
+    remember (if index =? 0 then if ltb (key_of o) sep then key_of o else sep else sep) as sep' eqn:Hsep.
     assert (Hnc : nid child = c) by (eapply find_nid; eauto).
     assert (Hs0 : index = 0 \/ sep' = sep).
-    { destruct (index =? 0) eqn:E0; [left; apply Nat.eqb_eq; exact E0 | right; inversion Hsep; reflexivity]. }
+    { destruct (index =? 0) eqn:E0; [left; apply Nat.eqb_eq; exact E0 | right; exact Hsep]. }
     destruct (isplit order (fresh s) child) as [[lft rgt]|] eqn:Hsp.
     + destruct (ismallest rgt) as [rs|] eqn:Ers; [cbn [bind] in HE|discriminate HE].
       match type of HE with bind ?e _ = _ => destruct e as [t'|] eqn:Hu; [cbn [bind] in HE|discriminate HE] end.
